@@ -1,5 +1,6 @@
 import Mp.CueAst
 import Mp.CueDeps
+import Mp.CueWalk
 /-! C15 / C13 on the validator model that runs on the parsed operation (`Mp/CueAst.lean`): a path that starts at a blocked root
     field is rejected as not available WHATEVER follows the first key - further keys, calls with any arguments - and nothing after
     the rejected key path is looked at; the verdict line is `REJ blocked`. (The statement for `$` paths at any depth of arguments and
@@ -88,5 +89,311 @@ theorem accepted_head_not_blocked (root : CTy) (bl : List String) (i f m pr : Bo
   intro hb
   have := blocked_head_errs root bl true i true f m pr name us us' rest n hn hb (Or.inl rfl) ([], ty) (by simpa [vTop] using h)
   simp at this
+
+
+/-! ### an accepted query reads no blocked root field through any `$` path, at any depth
+
+    `dhTop` (Mp/CueWalk.lean) lists the first keys of the `$` paths of an operation wherever they stand. If the validator model
+    accepts the operation (no error anywhere), none of them is blocked. Mutual structural induction over the operation; the
+    errors of a path only ever grow along the walk, so "no error at the end" means no error at any argument on the way. -/
+
+/-- no key of the list is blocked -/
+def NoneBlocked (bl : List String) (l : List Bytes) : Prop := ∀ k ∈ l, ∀ n, bytesToString k = some n → n ∉ bl
+
+theorem noneBlocked_nil (bl : List String) : NoneBlocked bl [] := by intro k hk; simp at hk
+theorem noneBlocked_append {bl : List String} {a b : List Bytes} (ha : NoneBlocked bl a) (hb : NoneBlocked bl b) : NoneBlocked bl (a ++ b) := by
+  intro k hk n hn
+  rcases List.mem_append.1 hk with h | h
+  · exact ha k h n hn
+  · exact hb k h n hn
+
+/-- what `vParts` accepted says about the state it started from and the operations it walked -/
+def PartsOK (bl : List String) (st : PState) (ops : List PathPart) : Prop :=
+  match st with
+  | .stopped e => e = []
+  | .keys _ => NoneBlocked bl (dhParts ops)
+  | .calls _ _ _ e => e = [] ∧ NoneBlocked bl (dhParts ops)
+
+theorem finishKeys_stopped_ne (root : CTy) (bl : List String) (ks : List String) (e : List String)
+    (h : finishKeys root bl ks = some (.stopped e)) : e ≠ [] := by
+  unfold finishKeys at h
+  cases ks with
+  | nil => simp at h
+  | cons k ks =>
+    simp only at h
+    cases hv : validateKeys root bl (k :: ks) [] none true with
+    | rej c => simp only [hv, Option.some.injEq, PState.stopped.injEq] at h; rw [← h]; simp
+    | err => simp [hv] at h
+    | acc t io =>
+      simp only [hv] at h
+      cases hf : findValueAtPath root (k :: ks) with
+      | none => simp [hf] at h
+      | some v => simp [hf] at h
+
+theorem finishKeys_not_keys (root : CTy) (bl : List String) (ks ks' : List String) : finishKeys root bl ks ≠ some (.keys ks') := by
+  unfold finishKeys
+  cases ks with
+  | nil => simp
+  | cons k ks =>
+    simp only
+    cases validateKeys root bl (k :: ks) [] none true with
+    | rej c => simp
+    | err => simp
+    | acc t io => cases findValueAtPath root (k :: ks) <;> simp
+
+theorem finishKeys_calls (root : CTy) (bl : List String) (ks : List String) (last : CTy) (prev : String × String) (pwf : Bool) (e : List String)
+    (h : finishKeys root bl ks = some (.calls last prev pwf e)) : e = [] := by
+  unfold finishKeys at h
+  cases ks with
+  | nil => simp at h
+  | cons k ks =>
+    simp only at h
+    cases hv : validateKeys root bl (k :: ks) [] none true with
+    | rej c => simp [hv] at h
+    | err => simp [hv] at h
+    | acc t io =>
+      simp only [hv] at h
+      cases hf : findValueAtPath root (k :: ks) with
+      | none => simp [hf] at h
+      | some v => simp only [hf, Option.some.injEq, PState.calls.injEq] at h; exact h.2.2.2.symm
+
+theorem append_eq_nil3 {α} {a b c : List α} (h : a ++ b ++ c = []) : a = [] ∧ b = [] ∧ c = [] := by
+  have h1 := List.append_eq_nil_iff.1 h
+  have h2 := List.append_eq_nil_iff.1 h1.1
+  exact ⟨h2.1, h2.2, h1.2⟩
+
+mutual
+theorem acc_path (root : CTy) (bl : List String) (top : Bool) (p : PathOp) (ty : String × String)
+    (h : vPath root bl top p = some ([], ty)) : NoneBlocked bl (dhPath p) := by
+  cases p with
+  | mk i isRoot f m ops us =>
+    unfold vPath at h
+    by_cases hc : (!isRoot && !top) = true
+    · simp [hc] at h
+    · simp only [hc] at h
+      have hparts := acc_parts root bl (.keys []) ops ty h
+      unfold dhPath
+      apply noneBlocked_append
+      · -- the head of a `$` path
+        cases isRoot with
+        | false => simp only [Bool.false_eq_true, if_false]; exact noneBlocked_nil bl
+        | true =>
+          simp only [if_true]
+          intro k hk n hn
+          have hk' : firstKey ops = some k := by simpa using hk
+          cases ops with
+          | nil => simp [firstKey] at hk'
+          | cons op rest =>
+            cases op with
+            | ident name pr us2 =>
+              simp only [firstKey, Option.some.injEq] at hk'
+              subst hk'
+              intro hb
+              simp only [vParts, hn, List.nil_append] at h
+              have := keys_blocked root bl n hb rest [] ([], ty) h
+              simp at this
+            | filter lo us2 => simp [vParts] at h
+            | func inv nm ps us2 =>
+              simp only [vParts] at h
+              cases inv with
+              | true => simp at h
+              | false => simp [finishKeys] at h
+      · exact hparts
+termination_by structural p
+theorem acc_parts (root : CTy) (bl : List String) (st : PState) (ops : List PathPart) (ty : String × String)
+    (h : vParts root bl st ops = some ([], ty)) : PartsOK bl st ops := by
+  cases ops with
+  | nil =>
+    cases st with
+    | keys ks => exact noneBlocked_nil bl
+    | calls last prev pwf e =>
+      simp only [vParts, Option.some.injEq, Prod.mk.injEq] at h
+      exact ⟨h.1, noneBlocked_nil bl⟩
+    | stopped e =>
+      simp only [vParts, Option.some.injEq, Prod.mk.injEq] at h
+      exact h.1
+  | cons op rest =>
+    cases op with
+    | ident name pr us =>
+      cases st with
+      | keys ks =>
+        simp only [vParts] at h
+        cases hb : bytesToString name with
+        | none => simp [hb] at h
+        | some n =>
+          simp only [hb] at h
+          have := acc_parts root bl (.keys (ks ++ [n])) rest ty h
+          simpa [PartsOK, dhParts] using this
+      | calls last prev pwf e => simp [vParts] at h
+      | stopped e =>
+        simp only [vParts] at h
+        exact acc_parts root bl (.stopped e) rest ty h
+    | filter lo us => simp [vParts] at h
+    | func inv nm ps us =>
+      simp only [vParts] at h
+      cases inv with
+      | true => simp at h
+      | false =>
+        simp only [Bool.false_eq_true, if_false] at h
+        -- the state in which the call is met
+        have key : ∀ (last : CTy) (prev : String × String) (pwf : Bool) (e : List String),
+            (match (bytesToString nm).bind lookupFunc with
+              | none => none
+              | some fd =>
+                match vParams root bl fd 0 none ps with
+                | none => none
+                | some perrs =>
+                  vParts root bl (.calls last (funcReturns fd prev pwf last) true (e ++ (if validOnOk fd prev then [] else ["other"]) ++ perrs)) rest) = some ([], ty) →
+            e = [] ∧ NoneBlocked bl (dhParts (.func false nm ps us :: rest)) := by
+          intro last prev pwf e hh
+          cases hf : (bytesToString nm).bind lookupFunc with
+          | none => simp [hf] at hh
+          | some fd =>
+            simp only [hf] at hh
+            cases hp : vParams root bl fd 0 none ps with
+            | none => simp [hp] at hh
+            | some perrs =>
+              simp only [hp] at hh
+              have ih := acc_parts root bl _ rest ty hh
+              simp only [PartsOK] at ih
+              obtain ⟨he, hrest⟩ := ih
+              obtain ⟨h1, _, h3⟩ := append_eq_nil3 he
+              subst h3
+              refine ⟨h1, ?_⟩
+              unfold dhParts
+              exact noneBlocked_append (acc_params root bl fd 0 none ps hp) hrest
+        cases st with
+        | keys ks =>
+          simp only at h
+          cases hfk : finishKeys root bl ks with
+          | none => simp [hfk] at h
+          | some s =>
+            simp only [hfk] at h
+            cases s with
+            | keys ks' => exact absurd hfk (finishKeys_not_keys root bl ks ks')
+            | stopped e =>
+              simp only at h
+              have he := acc_parts root bl (.stopped e) rest ty h
+              simp only [PartsOK] at he
+              exact absurd he (finishKeys_stopped_ne root bl ks e hfk)
+            | calls last prev pwf e =>
+              simp only at h
+              exact (key last prev pwf e h).2
+        | calls last prev pwf e =>
+          simp only at h
+          exact key last prev pwf e h
+        | stopped e =>
+          simp only at h
+          exact acc_parts root bl (.stopped e) rest ty h
+termination_by structural ops
+theorem acc_params (root : CTy) (bl : List String) (fd : FuncDesc) (i : Nat) (vp : Option Nat) (ps : List Param)
+    (h : vParams root bl fd i vp ps = some []) : NoneBlocked bl (dhParams ps) := by
+  cases ps with
+  | nil => exact noneBlocked_nil bl
+  | cons p rest =>
+    simp only [vParams] at h
+    cases hp : vParam root bl p with
+    | none => simp [hp] at h
+    | some r =>
+      obtain ⟨perrs, pty⟩ := r
+      simp only [hp] at h
+      cases hr : vParams root bl fd (i + 1) (paramCheck fd i vp pty).2 rest with
+      | none => simp [hr] at h
+      | some more =>
+        simp only [hr, Option.some.injEq] at h
+        have h1 := List.append_eq_nil_iff.1 h
+        have hmore : more = [] := h1.2
+        have hperrs : perrs = [] := by
+          cases perrs with
+          | nil => rfl
+          | cons a as => simp at h1
+        subst hmore; subst hperrs
+        have hrest := acc_params root bl fd (i + 1) _ rest hr
+        have hparam := acc_param root bl p pty hp
+        cases p with
+        | num d => simpa [dhParams] using hrest
+        | str s => simpa [dhParams] using hrest
+        | bool b => simpa [dhParams] using hrest
+        | path q => unfold dhParams; exact noneBlocked_append hparam hrest
+        | logic l => unfold dhParams; exact noneBlocked_append hparam hrest
+termination_by structural ps
+theorem acc_param (root : CTy) (bl : List String) (p : Param) (ty : String × String)
+    (h : vParam root bl p = some ([], ty)) :
+    NoneBlocked bl (match p with | .path q => dhPath q | .logic l => dhLogic l | _ => []) := by
+  cases p with
+  | num d => exact noneBlocked_nil bl
+  | str s => exact noneBlocked_nil bl
+  | bool b => exact noneBlocked_nil bl
+  | path q => simp only [vParam] at h; exact acc_path root bl false q ty h
+  | logic l => simp only [vParam] at h; exact acc_logic root bl false l ty h
+termination_by structural p
+theorem acc_logic (root : CTy) (bl : List String) (top : Bool) (l : LogicOp) (ty : String × String)
+    (h : vLogic root bl top l = some ([], ty)) : NoneBlocked bl (dhLogic l) := by
+  cases l with
+  | mk inv f t ops us =>
+    simp only [vLogic] at h
+    cases inv with
+    | true => simp at h
+    | false =>
+      simp only [Bool.false_eq_true, if_false] at h
+      cases hl : vLParts root bl top ops with
+      | none => simp [hl] at h
+      | some errs =>
+        simp only [hl, Option.some.injEq, Prod.mk.injEq] at h
+        obtain ⟨he, _⟩ := h
+        subst he
+        unfold dhLogic
+        exact acc_lparts root bl top ops hl
+termination_by structural l
+theorem acc_lparts (root : CTy) (bl : List String) (top : Bool) (ops : List LogicPart)
+    (h : vLParts root bl top ops = some []) : NoneBlocked bl (dhLParts ops) := by
+  cases ops with
+  | nil => exact noneBlocked_nil bl
+  | cons op rest =>
+    cases op with
+    | path p =>
+      simp only [vLParts] at h
+      cases hp : vPath root bl top p with
+      | none => simp [hp] at h
+      | some r =>
+        obtain ⟨errs, pty⟩ := r
+        cases hr : vLParts root bl top rest with
+        | none => simp [hp, hr] at h
+        | some more =>
+          simp only [hp, hr, Option.some.injEq] at h
+          have h1 := List.append_eq_nil_iff.1 h
+          have hmore : more = [] := h1.2
+          have herrs : errs = [] := by
+            cases errs with
+            | nil => rfl
+            | cons a as => simp at h1
+          subst hmore; subst herrs
+          unfold dhLParts
+          exact noneBlocked_append (acc_path root bl top p pty hp) (acc_lparts root bl top rest hr)
+    | logic l =>
+      simp only [vLParts] at h
+      cases hp : vLogic root bl top l with
+      | none => simp [hp] at h
+      | some r =>
+        obtain ⟨errs, pty⟩ := r
+        cases hr : vLParts root bl top rest with
+        | none => simp [hp, hr] at h
+        | some more =>
+          simp only [hp, hr, Option.some.injEq] at h
+          have h1 := List.append_eq_nil_iff.1 h
+          have hmore : more = [] := h1.2
+          have herrs : errs = [] := h1.1
+          subst hmore; subst herrs
+          unfold dhLParts
+          exact noneBlocked_append (acc_logic root bl top l pty hp) (acc_lparts root bl top rest hr)
+termination_by structural ops
+end
+
+/-- **C15**: a query the validator model accepts reads no blocked root field through any `$` path, at any depth of arguments and groups -/
+theorem accepted_reads_no_blocked_field (root : CTy) (bl : List String) (t : TopOp) (ty : String × String)
+    (h : vTop root bl t = some ([], ty)) : NoneBlocked bl (dhTop t) := by
+  cases t with
+  | path p => exact acc_path root bl true p ty h
+  | logic l => exact acc_logic root bl true l ty h
 
 end Mp
